@@ -2503,6 +2503,10 @@ int htp_validate_hostname(bstr *hostname) {
         if (len < 2 || len - 2 >= INET6_ADDRSTRLEN) {
             return 0;
         }
+        if (data[len - 1] != ']') {
+            // Unclosed IPv6 literal.
+            return 0;
+        }
         char dst[sizeof(struct in6_addr)];
         char str[INET6_ADDRSTRLEN];
         memcpy(str, data+1, len-2);
